@@ -225,13 +225,11 @@ def check_key_issue(chk: Check, repo: Repo) -> None:
             isolated = isolated and any(any(hh.type is not None and ast.unparse(hh.type) == "Exception" for hh in t.handlers) for t in n.tries) and bool(n.loops)
     bad_q = {n for n in names_q if n.endswith("put_nowait") or "devices" in n or "telegram_received" in n}
     chk.ob("key-issue-callbacks-isolated", q.site(), bool(cb_calls) and isolated and not bad_q, "key-issue callbacks are called inside the loop, each under try/except Exception; nothing else is reached", key="key-issue-callbacks-isolated")
-    # the registry iterated while user callbacks run must tolerate (un)registration from inside a callback:
-    # a list does, a set/dict raises RuntimeError out of the receive path
-    from ..astx import attr_writes
-    ws = [w for w in attr_writes(repo, "_data_secure_group_key_issue_cbs") if w.func.module.name == "xknx.core.telegram_queue"]
-    init_ok = any(w.kind == "assign" and isinstance(getattr(w.stmt, "value", None), ast.List) and not w.stmt.value.elts for w in ws)
-    muts = sorted({w.kind for w in ws if w.kind.startswith("mutcall:")})
-    chk.ob("key-issue-registry-is-list", q.site(), init_ok and set(muts) <= {"mutcall:append", "mutcall:remove"}, f"_data_secure_group_key_issue_cbs is created as a list literal ({init_ok}) and mutated only by {muts} (a set/dict mutated by a callback during dispatch raises RuntimeError out of the receive path)", key="key-issue-registry-is-list")
+    # "only reported to the key-issue callbacks" means to every one of them, without raising: a callback that
+    # unregisters itself while the live registry is walked shifts a list (the callback registered behind it never
+    # hears of the frame) and makes a set/dict raise RuntimeError out of the receive path
+    from .common_rules import dispatch_iterates_a_snapshot
+    dispatch_iterates_a_snapshot(chk, repo, q, "_data_secure_group_key_issue_cbs", "the registered key-issue callbacks", "key-issue|snapshot")
 
 
 def run(chk: Check, repo: Repo) -> None:
